@@ -215,7 +215,21 @@ func init() {
 				n := calleeName(&c.Call)
 				return strings.HasSuffix(n, "peers.Hub).SendTo") || strings.HasSuffix(n, "peers.Hub).BroadcastExcept")
 			}
-			ok2, inc2, wit2 := checkMustPassAfter(ld.Prog, repoModule+"/cmd/thruserv.handleWebSocket", isMsgRoute, isRead, isRoute, ev, "cfg:handleWebSocket one-route-per-message")
+			// a report sent back to the author through the hub (SendTo addressed to the connection's own peer id) is
+			// not a second delivery of the message
+			isRouteToOthers := func(ins ssa.Instruction) bool {
+				if !isRoute(ins) {
+					return false
+				}
+				c := ins.(*ssa.Call)
+				if strings.HasSuffix(calleeName(&c.Call), "peers.Hub).SendTo") && len(c.Call.Args) > 2 {
+					if u, ok := c.Call.Args[2].(*ssa.UnOp); ok && (strings.Contains(valueComment(u.X), "peerID") || debugName(u) == "peerID" || strings.Contains(u.X.Name()+u.X.String(), "peerID")) {
+						return false
+					}
+				}
+				return true
+			}
+			ok2, inc2, wit2 := checkMustPassAfter(ld.Prog, repoModule+"/cmd/thruserv.handleWebSocket", isMsgRoute, isRead, isRouteToOthers, ev, "cfg:handleWebSocket one-route-per-message")
 			if ok2 {
 				discharged++
 			} else if inc2 != "" {
